@@ -121,7 +121,11 @@ class C12(Profile):
     def generate(self, rng, index, tier):
         with_unreg = rng.random() < 0.25
         kinds = KINDS + ([('unreg', 3)] if with_unreg else [])
-        cfg = {'m_allow_custom': True, 'fs_allow_custom': True, 'bundlify': rng.random() < 0.15, 'ms_only': with_unreg}
+        # knob (minority of the runs that hold dict-kept objects): timestamp filter values in free spellings / as datetimes
+        # although dict-kept objects are present - the region of a known finding
+        respell_on_dicts = with_unreg and rng.random() < 0.3
+        cfg = {'m_allow_custom': True, 'fs_allow_custom': True, 'bundlify': rng.random() < 0.15, 'ms_only': with_unreg and not respell_on_dicts,
+               'respell_on_dicts': respell_on_dicts}
         n_ids = rng.randrange(2, 9)
         pool = SW.gen_pool(rng, index, n_ids, rng.choice([1, 2, 3, 4]), kinds)
         for e in pool:
@@ -147,7 +151,7 @@ class C12(Profile):
                 tag = 'opt'
             else:
                 target = rng.choice(pop) if pop and rng.random() < 0.7 else None
-                fs = [gen_filter(rng, pop, with_unreg, target if rng.random() < 0.85 else None)
+                fs = [gen_filter(rng, pop, cfg['ms_only'], target if rng.random() < 0.85 else None)
                       for _ in range(rng.choice([1, 1, 2, 2, 3, 4]))]
                 if rng.random() < 0.15:
                     fs.append(dict(rng.choice(fs)))
@@ -310,7 +314,13 @@ class C12(Profile):
             if isinstance(f['v'], dict) and '$dt' in f['v']:
                 world.probe('datetime_value')
         desc = [(f['p'], f['o'], f.get('via')) for f in fs]
+        ts_filters = [f for f in fs if f['p'] in TS]
+        has_dicts = any(k[0].startswith('x-unreg-thing--') for k in pop)
         if not out.ok:
+            if (isinstance(out.exc, TypeError) and has_dicts and sw.cfg.get('respell_on_dicts')
+                    and any(isinstance(f['v'], dict) and '$dt' in f['v'] for f in ts_filters)):
+                raise Violation('query-total', 'C12.query/dict-kept-timestamp-vs-datetime-filter-raises',
+                                dict(exc=repr(out.exc)[:300], filters=desc))
             raise Violation('query-total', 'C12.%s-raised/%s/%s' % (what, facade, type(out.exc).__name__),
                             dict(exc=repr(out.exc)[:300], filters=desc))
         try:
@@ -318,6 +328,14 @@ class C12(Profile):
         except TypeError:
             world.stat('reference_unlike_types_skipped')
             return
+        if sw.cfg.get('respell_on_dicts') and ts_filters and has_dicts and what in ('query', 'all_versions'):
+            obs0 = set(SW.obj_key(o) for o in out.value)
+            want0 = exp_keys if what == 'query' else {k for k in exp_keys if k[0] == sid}
+            wrong = obs0 ^ want0
+            if wrong and all(k[0].startswith('x-unreg-thing--') for k in wrong):
+                # verified cause: only dict-kept objects are answered wrongly, and a timestamp filter is present
+                raise Violation('query-exact', 'C12.query/dict-kept-timestamp-compared-as-text',
+                                dict(filters=desc, wrong=[SW.kstr(k) for k in sorted(wrong, key=repr)[:4]]))
         if what == 'query':
             obs = [SW.obj_key(o) for o in out.value]
             self.cmp_keys(world, 'query', facade, obs, exp_keys, desc)
